@@ -93,6 +93,13 @@ theorem BodyTI_endOfProg {t : Task} (h : t.BodyTI) : (endOfProg t).TI := by
              noctx_pc := ?_, ctx_pc := ?_, waiting := ?_, unl := ?_, fin := ?_ } <;> simp_all [PC.plainOk, PC.txOk]
     exact (h.noctx hc').1
 
+theorem BodyTI_setxApply {t : Task} (h : t.BodyTI) (hc : t.ctx = true) (k : Nat) (v : Int) (e p : Bool) :
+    (setxApply t k v e p).BodyTI := by
+  unfold setxApply
+  split
+  · exact ⟨h.plain_ctx, by simp [hc], h.ctx_tx, h.nodup, h.shape, h.fast⟩
+  · exact ⟨h.plain_ctx, h.noctx, h.ctx_tx, h.nodup, h.shape, h.fast⟩
+
 theorem BodyTI_localCmd {t t' : Task} {c : Cmd} (h : t.BodyTI) (hl : localCmd t c = some t') : t'.BodyTI := by
   cases c <;> simp only [localCmd] at hl
   case set k v =>
@@ -128,6 +135,22 @@ theorem BodyTI_localCmd {t t' : Task} {c : Cmd} (h : t.BodyTI) (hl : localCmd t 
     rename_i hh
     have hc : t.ctx = true := by simp at hh; exact hh.1
     exact ⟨h.plain_ctx, by simp [hc], h.ctx_tx, h.nodup, h.shape, h.fast⟩
+  case expire k =>
+    split at hl
+    · split at hl
+      · simp at hl; subst hl; exact h
+      · split at hl <;> simp at hl
+        subst hl; exact h
+    · simp at hl
+  case setx k v e =>
+    split at hl
+    · rename_i hh
+      have hc : t.ctx = true := by simp at hh; exact hh.1
+      split at hl
+      · simp at hl; subst hl; exact BodyTI_setxApply h hc _ _ _ _
+      · split at hl <;> simp at hl
+        subst hl; exact BodyTI_setxApply h hc _ _ _ _
+    · simp at hl
   case sleep d => simp at hl
   case raise => simp at hl
   case nestIn f =>
@@ -192,8 +215,32 @@ theorem BodyTI_park {t : Task} (h : t.BodyTI) (now : Nat) {c : Cmd} (rest : List
       exact BodyTI_setpc h _ _ (by simp [hc]) (by simp [PC.txOk]) (by simp) (by simp) (by simp)
     · rename_i hc
       exact BodyTI_setpc h _ _ (by simp [PC.plainOk]) (by simp [hc]) (by simp) (by simp) (by simp)
+  case expire k =>
+    split
+    · rename_i hc
+      split
+      · exact BodyTI_setpc h _ _ (by simp [hc]) (by simp [PC.txOk]) (by simp) (by simp) (by simp)
+      · rename_i hh
+        exact BodyTI_lockOrFail h hc (by simpa using hh) _
+    · rename_i hc
+      exact BodyTI_setpc h _ _ (by simp [PC.plainOk]) (by simp [hc]) (by simp) (by simp) (by simp)
+  case setx k v e =>
+    split
+    · rename_i hc
+      split
+      · exact BodyTI_setpc h _ _ (by simp [hc]) (by simp [PC.txOk]) (by simp) (by simp) (by simp)
+      · rename_i hh
+        exact BodyTI_lockOrFail h hc (by simpa using hh) _
+    · rename_i hc
+      exact BodyTI_setpc h _ _ (by simp [PC.plainOk]) (by simp [hc]) (by simp) (by simp) (by simp)
   case nestIn f => simp [localCmd] at hl
   case nestOut => simp [localCmd] at hl
+
+theorem BodyTI_expBuffer {t : Task} (h : t.BodyTI) (hc : t.ctx = true) (k : Nat) (cur : Option Int) :
+    (expBuffer t k cur).BodyTI := by
+  cases cur with
+  | none => exact ⟨h.plain_ctx, h.noctx, h.ctx_tx, h.nodup, h.shape, h.fast⟩
+  | some v => exact ⟨h.plain_ctx, by simp [expBuffer, hc], h.ctx_tx, h.nodup, h.shape, h.fast⟩
 
 theorem BodyTI_settle {t : Task} (now : Nat) (prog : List Cmd) (h : t.BodyTI) : (settle now prog t).TI :=
   settle_ind (R := fun _ t => t.BodyTI) (P := Task.TI) now
@@ -244,15 +291,30 @@ theorem TI_taskStep {t : Task} (h : t.TI) (tid now : Nat) (store : Store) (lock 
     exact BodyTI_settle now _ ⟨h.plain_ctx, by simp [hc], h.ctx_tx, h.nodup, h.shape, h.fast⟩
   case h_6 k hpc =>
     exact BodyTI_settle now _ ⟨h.plain_ctx, h.noctx, h.ctx_tx, h.nodup, h.shape, h.fast⟩
-  case h_7 c hpc =>
+  case h_7 k hpc =>
+    have hc : t.ctx = true := by
+      cases hc : t.ctx
+      · have := h.noctx_pc hc; simp [hpc, PC.plainOk] at this
+      · rfl
+    exact BodyTI_settle now _ (BodyTI_expBuffer h.body hc _ _)
+  case h_8 k v e hpc =>
+    have hc : t.ctx = true := by
+      cases hc : t.ctx
+      · have := h.noctx_pc hc; simp [hpc, PC.plainOk] at this
+      · rfl
+    refine BodyTI_settle now _ (BodyTI_setxApply (t := { t with reads := t.reads ++ [store k] }) ?_ hc _ _ _ _)
+    exact ⟨h.plain_ctx, h.noctx, h.ctx_tx, h.nodup, h.shape, h.fast⟩
+  case h_9 c hpc =>
     unfold directStep
     split
     · exact BodyTI_settle now _ h.body
     · exact BodyTI_settle now _ ⟨h.plain_ctx, h.noctx, h.ctx_tx, h.nodup, h.shape, h.fast⟩
     · exact BodyTI_settle now _ ⟨h.plain_ctx, h.noctx, h.ctx_tx, h.nodup, h.shape, h.fast⟩
     · exact BodyTI_settle now _ h.body
+    · exact BodyTI_settle now _ ⟨h.plain_ctx, h.noctx, h.ctx_tx, h.nodup, h.shape, h.fast⟩
+    · exact BodyTI_settle now _ h.body
     · exact h
-  case h_8 hpc =>
+  case h_10 hpc =>
     have hc : t.ctx = true := by
       cases hc : t.ctx
       · have := h.noctx_pc hc; simp [hpc, PC.plainOk] at this
@@ -261,13 +323,13 @@ theorem TI_taskStep {t : Task} (h : t.TI) (tid now : Nat) (store : Store) (lock 
     · refine { plain_ctx := h.plain_ctx, noctx := h.noctx, ctx_tx := h.ctx_tx, nodup := h.nodup, shape := h.shape, fast := h.fast,
                noctx_pc := ?_, ctx_pc := ?_, waiting := ?_, unl := ?_, fin := ?_ } <;> simp_all [PC.plainOk, PC.txOk]
     · exact BodyTI_afterCommit h.body hc
-  case h_9 hpc =>
+  case h_11 hpc =>
     have hc : t.ctx = true := by
       cases hc : t.ctx
       · have := h.noctx_pc hc; simp [hpc, PC.plainOk] at this
       · rfl
     exact BodyTI_afterCommit h.body hc
-  case h_10 ls o hpc =>
+  case h_12 ls o hpc =>
     have hu := h.unl ls o hpc
     have hc : t.ctx = true := by
       cases hc : t.ctx
@@ -290,7 +352,7 @@ theorem TI_taskStep {t : Task} (h : t.TI) (tid now : Nat) (store : Store) (lock 
           have hn := List.nodup_cons.mp hu.2.1
           exact ⟨hu.1, hn.2, fun l' hl' => hu.2.2.1 l' (List.mem_cons_of_mem _ hl'), hu.2.2.2⟩
       · intro o' _; exact hu.1
-  case h_11 => exact h
+  case h_13 => exact h
 
 theorem TI_wake {t : Task} (h : t.TI) (now : Nat) : (wake now t).TI := by
   unfold wake
